@@ -93,8 +93,14 @@ ASSUMPTIONS = [
     "Floating point is uninterpreted: IEEE operations are total and equal vstd's uninterpreted *_spec functions; exec float<->int `as` casts have no spec in Verus.",
     "Derived impls are assumed: Clone returns an equal value; PartialEq on Value is structural with IEEE == on floats (val_eq).",
     "Async: Verus' future model (the value of f().await satisfies f's ensures); suspension, polling and cancellation are not modelled; #[async_recursion] boxing is erased.",
-    "Extraction: bodies are copied verbatim from /repo/src by byte offsets on every run; only rewrites R1-R9 and ghost insertions G1/G2 (logged per application) are applied; "
-    "attributes and doc comments are dropped.",
+    "Extraction: bodies are copied verbatim from /repo/src by byte offsets on every run; only rewrites R1-R22 and ghost insertions G1/G2 (logged per application, "
+    "see rewrites_applied) are applied; attributes and doc comments are dropped.",
+    "Boundary functions carry ASSUMED std semantics where vstd has no model (each is listed in trusted_base): v.iter().any(f), chars.all(f), "
+    "x.into_iter().map(f).collect() for Vec/BTreeMap/HashMap (element-wise, in order, first error wins; colliding produced keys: survivor not stated), "
+    "BTreeMap::append, for-loops over &BTreeMap in ascending key order, Box::new(f) as Box<dyn UserFunction> keeps name()/cacheable(), "
+    "serde::Serialize through ValueSerializer is a deterministic function of the input.",
+    "Generic `impl IntoIterator` parameters (with_rules, with_functions, Symbols::append) are verified at one instantiation (Vec<T>, resp. BTreeMap<String, Value>): "
+    "an argument iterator with side effects of its own or without end is not covered.",
     "Machine integers are exact: i128/i64 are bounded mathematical integers with overflow obligations (nothing assumed).",
     "Verifier trust: Verus 0.2026.09.13 / Z3 4.16.0 (and Kani 0.68 / CBMC 6.11 where used) and their encodings of Rust semantics.",
 ]
